@@ -303,3 +303,20 @@ Example C04_link_ex : exists st' e' act log,
   P.k_wake (P.apply_effects (PP.effects_current 1 0 (fun _ _ e => e)) log l2_e) = 0%N /\
   P.k_wake e' = 1%N.
 Proof. exact l2_ex_queue_link. Qed.
+
+(* the case the headline theorem is about: a wake-up pending (counter 1), functor 7 already queued,
+   no event ready - only the wake-up channel is dispatched, handleRead consumes the wake-up, the
+   batch [7] runs and queues 8, which wakes again: C09's iteration and this model's loop-thread
+   schedule agree (batch [7], left-over queue [8], counter 1) *)
+Example C04_link_ex_wakeup_nonempty_batch : exists st' e' act log labs s',
+  P.loop_iter_full_env P.ep P.ep_step_current (fun _ _ => []) W.hq_ex W.fb_ex W.all_run
+    (PP.effects_current 1 0 (fun _ _ e => e)) (L.wake Gen_C04.gen_shape) 4 3 l2_st0 l2_e_stale [7] []
+    = P.Ok (st', e', [8], (act, log, [7])) /\
+  log = [(1, P.CbRead)] /\
+  Rq l2_s_stale l2_e_stale [7] /\
+  flat_map (fun ck => W.hq_ex (fst ck) (snd ck)) log = [] /\
+  P.k_wake (P.apply_effects (PP.effects_current 1 0 (fun _ _ e => e)) log l2_e_stale) = 0%N /\
+  loop_only labs /\ L.run Gen_C04.gen_shape l2_scr l2_s_stale labs = Some s' /\
+  L.pc s' = L.LTest /\ L.pending (L.sg s') = [8] /\ L.evfd (L.sg s') = 1 /\
+  L.execq (L.log (L.sg s')) = [7] /\ P.k_wake e' = 1%N.
+Proof. exact l2_ex_queue_link_wakeup. Qed.
